@@ -11,7 +11,8 @@
 // directly followed by another number or by a digit byte would be read back as ONE number by the
 // real (maximal munch) scanners; such streams set AMBIG and fail the round-trip harnesses.
 
-pub const QCAP: usize = 28;
+include!(concat!(env!("CARGO_MANIFEST_DIR"), "/src/verif_params.rs"));
+// QCAP: capacity of the token queue
 
 #[derive(Clone, Copy, PartialEq, Eq)]
 pub struct Tok {
